@@ -49,6 +49,10 @@ def outside_bracket_scens():
             else: mid = S("mid", su=1, td=1, items=[inner]); mid.fixture = fx; root = S("top", items=[S("first", items=[T("p", body=["P"])]), mid, T("q", body=["P"])])
             for mode in ("fork", "inproc"):
                 late.append((Scen(root, mode=mode), f"a failed check in the suite {pos} fixture that the reporting process runs around a sub-suite"))
+    for mode in ("fork", "inproc"):      # ... and the test that runs next fails a check of its own
+        inner = S("inner", items=[T("a", body=["F"]), T("b", body=["P"])])
+        root = S("top", su=1, td=1, items=[inner, T("c", body=["F", "P"])]); root.fixture = (["F"], ["F"])
+        late.append((Scen(root, mode=mode), "a failed check in the suite fixtures that the reporting process runs around a sub-suite, before a test that fails itself"))
     for shape in range(4):
         z = T("z", body=["P", "AX"])
         if shape == 0: root = S("top", items=[T("a", body=["P"]), z])
@@ -559,6 +563,19 @@ def check_C17(ctx):
             row[r] = lobs[k]; k += 1
         verdicts = {r: status_of(o) for r, o in row.items()}
         fails = {r: int(observed_totals(row[r], r)[1]) for r in ("text", "cute") if observed_totals(row[r], r)}
+        # which tests show a failure of their own: text (failure lines naming the test) and CUTE (its '#failure' line)
+        tper = {k.split("/")[-1]: v[0] > 0 for k, v in observed_per_test(row["text"], "text", sc).items()}
+        cper, cur = {}, None
+        for l in impl_proj(row["cute"], "cute"):
+            kk_, _, name = l.partition(" ")
+            if kk_ == "starting": cur = name; cper[name] = False
+            elif kk_ == "failure" and cur is not None and name == cur: cper[name] = True
+        own = {t.name: any(a[0] in "FXY" for a in t.body) for _, t in sc.root.tests()}
+        for name, has in own.items():
+            if has and not (tper.get(name) and cper.get(name)) and len(shown) < 8:
+                shown.add(("own", name, sc.mode))
+                ctx.violation(f"[C17] {lab}: test {name} fails a check of its own; text shows a failure for it: {tper.get(name)}, CUTE shows one: {cper.get(name)}",
+                              "# run under the text and the CUTE reporter: harness/scenario_run <file> <reporter> <outdir>\n" + sc.text(), found_input=True, facts={"outside_bracket": True})
         if (len(set(verdicts.values())) > 1 or len(set(fails.values())) > 1) and len(shown) < 8:
             shown.add(lab[:40] + sc.mode)
             ctx.violation(f"[C17] {lab}: the reporters disagree: verdicts {verdicts}, failures counted {fails}", "# run under every reporter: harness/scenario_run <file> <reporter> <outdir>\n" + sc.text(),
